@@ -34,7 +34,7 @@ GROUP = dict(
                   dict(cfg="MCSpeedProfile_quickB.cfg", emit=False, timeout=300, coverage=False)],
         "thorough": [dict(cfg="MCSpeedProfile_quickA.cfg", emit=True),
                      dict(cfg="MCSpeedProfile_gates.cfg", emit=True),
-                     dict(cfg="MCSpeedProfile_quickB.cfg", emit=True, max_emit=150000, workers=16, timeout=900),
+                     dict(cfg="MCSpeedProfile_quickB_emit.cfg", emit=True, max_emit=100000, workers=16, timeout=900, coverage=False),
                      dict(cfg="MCSpeedProfile_thoroughA.cfg", emit=False, workers=16, timeout=1800),
                      dict(cfg="MCSpeedProfile_thoroughB.cfg", emit=False, workers=16, timeout=3600)],
     },
